@@ -17,7 +17,10 @@ MCStreams == {
   St(30, TRUE, "titan", 3, 3, {32, 33, 34, 35}),
   St(30, TRUE, "titan", 3, 9, {32, 35, 38, 41}),
   St(30, TRUE, "titan", 3, 2, {32, 34}),
-  St(30, TRUE, "titanBad", 0, 3, {32, 35}) }
+  St(30, TRUE, "titanBad", 0, 3, {32, 35}),
+  \* every byte offset is a cut point: all 2^(n-1) segmentations of a short Gemini and a short Titan request
+  St(16, TRUE, "ok", 0, 2, 1..20),
+  St(24, TRUE, "titan", 4, 6, 1..32) }
 MCChains == { <<>>, <<"allow">>, <<"deny53">>, <<"denyNoText">>, <<"raise">>,
               <<"allow", "allow">>, <<"allow", "deny44">>, <<"deny60", "raise">>, <<"allow", "raise", "deny53">> }
 Outs == {"ok20", "ok20bytes", "ok20empty", "in10", "ok30", "err51", "cert60",
